@@ -172,7 +172,7 @@ func (i *interpreter) pureInstr(in ssa.Instruction, allowReturn bool) bool {
 		return allowReturn
 	case *ssa.Call:
 		if in.Call.IsInvoke() {
-			return false
+			return true // callee purity is checked when the call is made (regionAbort otherwise)
 		}
 		switch f := in.Call.Value.(type) {
 		case *ssa.Builtin:
@@ -184,7 +184,7 @@ func (i *interpreter) pureInstr(in ssa.Instruction, allowReturn bool) bool {
 		case *ssa.Function:
 			return i.pureFn(f)
 		}
-		return false
+		return true // closure / function value: checked dynamically
 	}
 	return false
 }
@@ -333,6 +333,7 @@ func (fr *frame) ifConvert(instr *ssa.If, cond *sym.Term) (k continuation, done 
 				fr.block, fr.prevBlock, fr.guard = B, savedPrev, outer
 				k, done = 0, false
 				i.ex.stats.RegionAborts++
+				i.regions[instr] = nil // do not try again
 				return
 			}
 			fr.guard = outer
